@@ -39,7 +39,11 @@ def name_gene(n):
     return "G%03d" % n
 
 
-def num(s):
+def num(s, prefix=None):
+    """back from the fixed-width name; a name of another kind (e.g. a gene id in the isoform list) is kept as text so
+    that it cannot be mistaken for a number"""
+    if prefix is not None and not (isinstance(s, str) and s[:1] == prefix):
+        return "WRONG-KIND:%s" % (s,)
     return int(s[1:])
 
 
@@ -182,10 +186,10 @@ def to_basic(d):
 
 def from_basic(a):
     p = a.penalty_score * SHORT_FLOAT_MULTIPLIER
-    return {"aid": a.assignment_id, "read": num(a.read_id), "chr": num(a.chr_id), "start": a.start, "end": a.end,
+    return {"aid": a.assignment_id, "read": num(a.read_id, "r"), "chr": num(a.chr_id, "c"), "start": a.start, "end": a.end,
             "region": [a.genomic_region[0], a.genomic_region[1]], "mm": bool(a.multimapper), "polya": bool(a.polyA_found),
             "atype": a.assignment_type.name, "gtype": a.gene_assignment_type.name,
-            "pen": int(p) if p == int(p) else p, "iso": [num(i) for i in a.isoforms], "genes": [num(g) for g in a.genes]}
+            "pen": int(p) if p == int(p) else p, "iso": [num(i, "T") for i in a.isoforms], "genes": [num(g, "G") for g in a.genes]}
 
 
 def key_of(d):
